@@ -109,6 +109,22 @@ Theorem gsvd_predict_reproduces_fit (prow pcol psl psr norm_o : Q -> Q) (normali
 Proof. exact (gsvd_predict_reproduces_fit_full prow pcol psl psr norm_o normalized nrow ncol A reg sU sS sV index i). Qed.
 Print Assumptions gsvd_predict_reproduces_fit.
 
+(** RECORDED FINDING (zero singular value): the hypothesis [~ psr (sigma_j) == 0] above is necessary.
+    With n_components above the rank of the weighted matrix, a returned singular value is 0; GSVD.predict
+    divides by sigma^fs (NaN / garbage in floats, 0 in Q) and cannot reproduce the fitted row. *)
+Theorem gsvd_predict_zero_singular_refuted :
+  exists (A sU sV : mat) (sS : vec) (index : list nat) (psl psr : Q -> Q),
+    let one := fun _ : Q => 1 in
+    wf_mat 3 3 A /\ length sU = 3%nat /\
+    (forall k, (k < length index)%nat -> let j := nth k index 0%nat in
+       slr_matvec (gsvd_operator one one 3 3 A 0) (col j sV) =v vscale (nthq sS j) (col j sU) /\
+       psl (nthq sS j) * psr (nthq sS j) == nthq sS j) /\
+    ~ (gsvd_predict_row one one psr (fun q => q) false 3 0 (snd (gsvd_weights 3 3 A 0))
+                        (gsvd_sv sS index) (take_cols index sV) (nth 0 A [])
+       =v nth 0 (gsvd_emb_row one psl 3 3 A 0 sU sS index) []).
+Proof. exact EmbeddingProofs.gsvd_predict_zero_singular_refuted. Qed.
+Print Assumptions gsvd_predict_zero_singular_refuted.
+
 (** (A3) PCA: the SparseLR operator (and its transpose, which svds also calls) is the centred matrix
     A - 1 mean^T, mean_j = column mean. *)
 Theorem pca_centering (nrow ncol : nat) (A : mat) : wf_mat nrow ncol A ->
@@ -119,6 +135,21 @@ Theorem pca_centering (nrow ncol : nat) (A : mat) : wf_mat nrow ncol A ->
      mget (centered nrow ncol A) i j == mget A i j - sumq (col j A) / qn nrow).
 Proof. exact (pca_centering_both nrow ncol A). Qed.
 Print Assumptions pca_centering.
+
+(** RECORDED FINDINGS (PCA): [PCA.fit] never reads [normalized] (the model [pca_fit] ignores it), and
+    [PCA.predict] is GSVD.predict with [weights_col_ = None] (TypeError).  [normalized_unit_norm] and
+    [gsvd_predict_reproduces_fit] therefore speak of [normalize2] / [gsvd_predict_row], which Spectral, GSVD,
+    SVD and RandomProjection use and PCA does not. *)
+Theorem pca_normalized_refuted :
+  exists (sU : mat) (sS : vec) (sV : mat) (i : nat),
+    let '(emb_row, _, _) := pca_fit true sU sS sV in
+    ~ Forall (fun x => x == 0) (nth i emb_row []) /\ ~ sqnorm (nth i emb_row []) == 1.
+Proof. exact EmbeddingProofs.pca_normalized_refuted. Qed.
+Print Assumptions pca_normalized_refuted.
+
+Theorem pca_predict_refuted (x : vec) : pca_predict_row None x = inr TypeError.
+Proof. exact (EmbeddingProofs.pca_predict_refuted x). Qed.
+Print Assumptions pca_predict_refuted.
 
 (** (A4) normalize(p = 2): every non-null row gets squared norm 1 (null rows stay null). *)
 Theorem normalized_unit_norm (norm_o : Q -> Q) (E : mat) (i : nat) :
